@@ -134,7 +134,24 @@ func genFrames(r *vlib.R, maxLen int, short bool) [][]byte {
 			l = maxP
 		}
 		f := make([]byte, l)
-		switch r.Intn(6) {
+		switch r.Intn(7) {
+		case 6: // zero-free runs of a length at the block boundary (251..256), each followed by a zero
+			run := 251 + r.Intn(6)
+			for i, left := 0, run; i < len(f); i++ {
+				if left == 0 {
+					f[i], left = 0, 251+r.Intn(6)
+					if r.Chance(0.5) {
+						left = run
+					}
+				} else {
+					f[i] = byte(1 + r.Intn(255))
+					left--
+				}
+			}
+			if l >= 3 && r.Chance(0.5) {
+				// the header below must not break the first run: the frame starts with it anyway
+				f[l-1] = 0
+			}
 		case 0: // all zero
 		case 1:
 			for i := range f {
